@@ -164,7 +164,7 @@ ALL_KINDS = STORY_KINDS + ITEM_KINDS + OTHER_KINDS
 
 def msg_doc(kind, message_id, ro_id='RO', *, story_ref=ABSENT, target=ABSENT, ids=(),
             carried=(), pretty=False, target_el=True, body=None, fields=(),
-            operation=None, split_sources=False, **env):
+            operation=None, split_sources=False, source_story=None, **env):
     """Build a message document.
 
     story_ref : addressed story (item-level kinds)
@@ -174,6 +174,8 @@ def msg_doc(kind, message_id, ro_id='RO', *, story_ref=ABSENT, target=ABSENT, id
     target_el : for roElementAction, whether <element_target> is emitted at all
     body/fields : roStorySend: children of storyBody / other children
     split_sources: one <element_source> per ID (non-standard shape)
+    source_story : item-level roElementAction only: a <storyID> inside element_source, before the
+                   item IDs (classified as an item operation all the same; items are those of the target story)
     """
     if kind in EA_KINDS:
         op, level = EA_KINDS[kind]
@@ -195,6 +197,8 @@ def msg_doc(kind, message_id, ro_id='RO', *, story_ref=ABSENT, target=ABSENT, id
                 m.append(s)
         else:
             s = E('element_source')
+            if source_story is not None and level == 'item' and ids:
+                s.append(E('storyID', source_story))
             for r in ids:
                 _ref(s, idtag, r)
             for c in carried:
